@@ -207,7 +207,37 @@ func exact(b []byte) []byte {
 // c01_mutate applies one of: bit flip, byte set, truncate, extend, 4-byte little-endian field shift, delete, duplicate.
 func c01_mutate(r *rand.Rand, in []byte) []byte {
 	b := append([]byte{}, in...)
-	switch r.Intn(8) {
+	switch r.Intn(10) {
+	case 8, 9: // rewrite one entry of the leading offset table with a value taken from the table's own geometry
+		if len(b) >= 8 {
+			nOff := min(len(b)/4, 4)
+			at := 4 * r.Intn(nOff)
+			first := int(binary.LittleEndian.Uint32(b[0:]))
+			other := int(binary.LittleEndian.Uint32(b[4*r.Intn(nOff):]))
+			var v int
+			switch r.Intn(8) {
+			case 0:
+				v = other - 1 - r.Intn(4) // just before another field starts
+			case 1:
+				v = other
+			case 2:
+				v = first + r.Intn(max(1, other-first)) // somewhere inside the fields before it
+			case 3:
+				v = first
+			case 4:
+				v = first + 1
+			case 5:
+				v = len(b)
+			case 6:
+				v = len(b) + 1 + r.Intn(4)
+			default:
+				v = r.Intn(len(b) + 1)
+			}
+			if v < 0 {
+				v = 0
+			}
+			binary.LittleEndian.PutUint32(b[at:], uint32(v))
+		}
 	case 0:
 		if len(b) > 0 {
 			b[r.Intn(len(b))] ^= 1 << uint(r.Intn(8))
